@@ -178,6 +178,13 @@ func TestVerifC20(t *testing.T) {
 				c.postFrom(s, fmt.Sprintf("NICK churn%d", k), nextCm(), fmt.Sprintf("10.7.%d.%d", (k/250)%250, k%250))
 			})
 			ov.do("post", func() { c.postFrom(s, "USER u 0 * :r", nextCm(), fmt.Sprintf("10.7.%d.%d", (k/250)%250, k%250)) })
+			// the first JOIN of a session that is in no channel so far (while status pages list the sessions)
+			if k%3 != 0 {
+				time.Sleep(time.Duration(rng.Intn(4)) * time.Millisecond)
+				ov.do("post", func() {
+					c.postFrom(s, fmt.Sprintf("JOIN #churn%d", k%5), nextCm(), fmt.Sprintf("10.7.%d.%d", (k/250)%250, k%250))
+				})
+			}
 			if k%2 == 0 {
 				ov.do("delete-session", func() { c.deleteSession(s, []byte(`{"Quitmessage":"bye"}`)) })
 			}
